@@ -5,9 +5,10 @@
   maps `OrderOK` (C14), exact reference counts `RefExact m ext` (C06) w.r.t. the ledger `ext` of
   externally held references, reordering requests not armed (explicit reordering, or inside
   `_try_to_reorder` where `_last_len = None`), every element of `bdd.roots` held.
-  Relation (`HeldSame ext m m'`): every held reference denotes the same function of the variable
-  NAMES (`denN`).  Integer identity is built in (the same number `u` is looked up in both
-  managers); "same external count" is `RefExact m' ext` for the SAME ledger `ext`.
+  Relation (`ReorderRel ext m m'`): every held reference denotes the same function of the variable
+  NAMES (`.held : HeldSame`, via `denN`); the same names are declared; `roots`, the reordering
+  switches and an empty schedule are kept.  Integer identity is built in (the same number `u` is
+  looked up in both managers); "same external count" is `RefExact m' ext` for the SAME ledger.
 
   Iteration orders of Python sets are schedule inputs (`Mgr.sched`); every theorem holds for every
   schedule: the outcome `OkOrSched Q r` is "returned normally with `Q`", the only alternative being
@@ -15,9 +16,12 @@
   the level sets — not a behaviour of the code).  With no recorded schedule the calls are total.
 
   Proved: `C07_swap*`, `C07_shift`, `C07_sortToOrder*`, `C07_reorder_order`, `C07_reorderToPairs`,
-  `C07_sift_partial`.  NOT proved: `sift_never_asserts_statement` (see there).
+  `C07_sift` (sifting returns normally for every schedule — none of its size assertions can fire —
+  and ends with no more nodes than after its initial collection), `C07_sift_partial`,
+  `sift_never_asserts`.  Finding: `sift_single_variable_raises`.
 -/
 import DDProofs.SwapDrivers
+import DDProofs.SiftFinal
 import DDProofs.GcExample
 import DD.Ops
 open Std
@@ -64,14 +68,14 @@ names; every externally held reference is present before and after; the result i
 theorem C07_swap (ext : Nat → Nat) (m : Mgr) (h : ReorderInv ext m) (x : Nat) (hx : x + 1 < m.nvars) :
     OkOrSched (SwapPost m ext x) (swap (.level x) (.level ((x : Int) + 1)) true m) := by
   rw [swap_levels_eq m x hx]
-  exact swapBody_spec m ext h.inv h.order h.refExact h.off x hx
+  exact OkOrSched.mono (fun _ _ hp => hp.1) (swapBody_spec m ext h.inv h.order h.refExact h.off x hx)
 
 /-- C07 (swap, arguments the other way round — `_shift` towards the top) -/
 theorem C07_swap_flipped (ext : Nat → Nat) (m : Mgr) (h : ReorderInv ext m) (x : Nat)
     (hx : x + 1 < m.nvars) :
     OkOrSched (SwapPost m ext x) (swap (.level ((x : Int) + 1)) (.level x) true m) := by
   rw [swap_levels_eq' m x hx]
-  exact swapBody_spec m ext h.inv h.order h.refExact h.off x hx
+  exact OkOrSched.mono (fun _ _ hp => hp.1) (swapBody_spec m ext h.inv h.order h.refExact h.off x hx)
 
 /-- C07 (swap, no recorded schedule): total -/
 theorem C07_swap_total (ext : Nat → Nat) (m : Mgr) (h : ReorderInv ext m) (x : Nat)
@@ -86,7 +90,7 @@ order, preceded by the full collection -/
 theorem C07_swap_public (ext : Nat → Nat) (m : Mgr) (h : ReorderInv ext m) (xa ya : VarOrLevel)
     (x a b : Nat) (hx : x + 1 < m.nvars) (ha : Resolves m xa a) (hb : Resolves m ya b)
     (hab : (a = x ∧ b = x + 1) ∨ (a = x + 1 ∧ b = x)) :
-    OkOrSched (fun r m' => ReorderInv ext m' ∧ HeldSame ext m m' ∧ Exch m m' x ∧ r.2 = m'.len ∧
+    OkOrSched (fun r m' => ReorderInv ext m' ∧ ReorderRel ext m m' ∧ Exch m m' x ∧ r.2 = m'.len ∧
         r.1 ≤ m.len)
       (swap xa ya false m) :=
   swap_public_spec ext m h xa ya x a b hx ha hb hab
@@ -112,7 +116,7 @@ theorem C07_swap_held (ext : Nat → Nat) (m : Mgr) (x : Nat) (r : Nat × Nat) (
 afterwards, the ones in between moved one level towards `start`, all others stayed. -/
 theorem C07_shift (ext : Nat → Nat) (m : Mgr) (h : ReorderInv ext m) (s e : Nat)
     (hs : s < m.nvars) (he : e < m.nvars) :
-    OkOrSched (fun _ m' => ReorderInv ext m' ∧ HeldSame ext m m' ∧ m'.nvars = m.nvars ∧
+    OkOrSched (fun _ m' => ReorderInv ext m' ∧ ReorderRel ext m m' ∧ m'.nvars = m.nvars ∧
         ∀ j, m'.tbl.l2v[j]? = m.tbl.l2v[shiftPerm s e j]?)
       (shift s e m) :=
   OkOrSched.mono (fun _ _ hp => ⟨hp.1, hp.2.1, hp.2.2.1, hp.2.2.2.2⟩)
@@ -123,7 +127,7 @@ variables, for every schedule: returns normally, keeps `ReorderInv` and the deno
 references, and the requested ranks along the levels are non-decreasing afterwards. -/
 theorem C07_sortToOrder_sorted (ext : Nat → Nat) (m : Mgr) (h : ReorderInv ext m)
     (order : List (String × Int)) (hlen : order.length = m.nvars) (hc : Covered order m.nvars m) :
-    OkOrSched (fun _ m' => ReorderInv ext m' ∧ HeldSame ext m m' ∧ m'.nvars = m.nvars ∧
+    OkOrSched (fun _ m' => ReorderInv ext m' ∧ ReorderRel ext m m' ∧ m'.nvars = m.nvars ∧
         SortedBy order m')
       (sortToOrder order m) :=
   OkOrSched.mono (fun _ _ hp => ⟨hp.1, hp.2.1, hp.2.2.1, hp.2.2.2.2.1⟩)
@@ -134,7 +138,7 @@ variables bijectively onto `0..n-1`, afterwards `level_of_var(v) = order[v]` and
 `var_at_level(order[v]) = v` for every variable. -/
 theorem C07_sortToOrder (ext : Nat → Nat) (m : Mgr) (h : ReorderInv ext m)
     (order : List (String × Int)) (ho : ReqOrder order m) :
-    OkOrSched (fun _ m' => ReorderInv ext m' ∧ HeldSame ext m m' ∧ m'.nvars = m.nvars ∧
+    OkOrSched (fun _ m' => ReorderInv ext m' ∧ ReorderRel ext m m' ∧ m'.nvars = m.nvars ∧
         ∀ v p, order.lookup v = some p → m.tbl.vars.contains v = true →
           m'.tbl.vars[v]? = some p.toNat ∧ m'.tbl.l2v[p.toNat]? = some v)
       (sortToOrder order m) :=
@@ -143,7 +147,7 @@ theorem C07_sortToOrder (ext : Nat → Nat) (m : Mgr) (h : ReorderInv ext m)
 /-- C07 (`reorder(bdd, order)`) -/
 theorem C07_reorder_order (ext : Nat → Nat) (m : Mgr) (h : ReorderInv ext m)
     (order : List (String × Int)) (ho : ReqOrder order m) :
-    OkOrSched (fun _ m' => ReorderInv ext m' ∧ HeldSame ext m m' ∧ m'.nvars = m.nvars ∧
+    OkOrSched (fun _ m' => ReorderInv ext m' ∧ ReorderRel ext m m' ∧ m'.nvars = m.nvars ∧
         ∀ v p, order.lookup v = some p → m.tbl.vars.contains v = true →
           m'.tbl.vars[v]? = some p.toNat ∧ m'.tbl.l2v[p.toNat]? = some v)
       (reorder (some order) m) :=
@@ -155,7 +159,7 @@ requested pair is adjacent afterwards. -/
 theorem C07_reorderToPairs (ext : Nat → Nat) (m : Mgr) (h : ReorderInv ext m)
     (pairs : List (String × String))
     (hdecl : ∀ v ∈ pairNames pairs, m.tbl.vars.contains v = true) (hnd : (pairNames pairs).Nodup) :
-    OkOrSched (fun _ m' => ReorderInv ext m' ∧ HeldSame ext m m' ∧ m'.nvars = m.nvars ∧
+    OkOrSched (fun _ m' => ReorderInv ext m' ∧ ReorderRel ext m m' ∧ m'.nvars = m.nvars ∧
         ∀ p ∈ pairs, Adj m' p.1 p.2)
       (reorderToPairs pairs m) :=
   OkOrSched.mono (fun _ _ hp => ⟨hp.1, hp.2.1, hp.2.2.1, hp.2.2.2.1⟩)
@@ -167,7 +171,7 @@ holds, every held reference denotes the same function, the variables are the sam
 no more nodes than after the initial collection (the inequality is the code's own final check). -/
 theorem C07_sift_partial (ext : Nat → Nat) (m m' : Mgr) (h : ReorderInv ext m)
     (hrun : reorder none m = (.ok (), m')) :
-    ∃ mg, collectGarbage none m = (.ok (), mg) ∧ ReorderInv ext m' ∧ HeldSame ext m m' ∧
+    ∃ mg, collectGarbage none m = (.ok (), mg) ∧ ReorderInv ext m' ∧ ReorderRel ext m m' ∧
       m'.nvars = mg.nvars ∧ m'.len ≤ mg.len ∧ mg.len ≤ m.len := by
   obtain ⟨mg, h1, h2, h3, h4, h5⟩ := applySifting_partial (siftEnv ext) m m' h hrun
   refine ⟨mg, h1, h2, h3, h4, h5, ?_⟩
@@ -178,28 +182,28 @@ theorem C07_sift_partial (ext : Nat → Nat) (m m' : Mgr) (h : ReorderInv ext m)
   show mg.tbl.succ.size + 1 ≤ m.tbl.succ.size + 1
   omega
 
-/-- C07 (sifting, all outcomes): with at least two variables, for every schedule, `reorder(bdd)`
-either returns normally (then `C07_sift_partial` applies), or the model reports a schedule
-mismatch, or one of the size assertions of the sifting code (`sizes[k] == len(bdd)`,
-`m_ <= m` in `_reorder_var`, `m <= n` in `_apply_sifting`, or `_shift`'s range check on the selected
-level) raises `AssertionError`.  No `KeyError`, `ValueError`, … can occur, and no assertion
-inside `swap`. -/
-theorem C07_sift_outcome (ext : Nat → Nat) (m : Mgr) (h : ReorderInv ext m) (h2 : 2 ≤ m.nvars) :
-    OkSchedAssert (fun _ m' => ReorderInv ext m' ∧ HeldSame ext m m') (reorder none m) :=
-  applySifting_outcome (siftEnv ext) m h h2
+/-- C07 (sifting): with at least two variables, FOR EVERY SCHEDULE of variable and level-set
+iteration orders, `reorder(bdd)` (Rudell sifting) returns normally: none of the size assertions of
+`_reorder_var` / `_apply_sifting` / `_shift` can fire and no other exception is possible.
+Afterwards `ReorderInv` holds, no unreferenced node is left, every held reference denotes the same
+function of the names, the same variables are declared. -/
+theorem C07_sift (ext : Nat → Nat) (m : Mgr) (h : ReorderInv ext m) (h2 : 2 ≤ m.nvars) :
+    OkOrSched (fun _ m' => ReorderInv ext m' ∧ NoGarbage m' ∧ ReorderRel ext m m') (reorder none m) :=
+  OkOrSched.mono (fun _ _ hp => ⟨hp.1.1, hp.1.2, hp.2⟩) (applySifting_never_raises ext m h h2)
 
-/-- C07, the clause that is NOT proved: sifting always returns normally, i.e. the size
-assertions named in `C07_sift_outcome` can never fire.  What is missing: "the number of nodes
-after a swap is a function of the variable order and the set of held references only" (from
-`canonical` + exactness of the collections: the node set is the set of reachable subfunctions),
-so that returning to a level visited before reproduces the recorded size, and the recorded
-sizes include the size at the starting level.  Every other failure mode is excluded by
-`C07_sift_outcome`.  Covered by correspondence only (check C07: every variable schedule = every
-hash seed on the generated histories).  The hypothesis `2 ≤ nvars` is necessary:
-`sift_single_variable_raises`. -/
+/-- the clause of C07 that the design expected to stay open, as a statement … -/
 def sift_never_asserts_statement : Prop :=
   ∀ (ext : Nat → Nat) (m : Mgr), ReorderInv ext m → 2 ≤ m.nvars →
     OkOrSched (fun _ _ => True) (reorder none m)
+
+/-- … and its proof.  Key facts: a swap leaves no unreferenced node behind (`SwapPost.noZero`), so
+the number of nodes is a function of the variable order and of the held functions
+(`len_determined`: reachability from held references + canonicity across two tables); shifting
+back to a level visited before reproduces the recorded size, and the recorded sizes include the
+size at the starting level.  The hypothesis `2 ≤ nvars` is necessary:
+`sift_single_variable_raises`. -/
+theorem sift_never_asserts : sift_never_asserts_statement :=
+  fun ext m h h2 => OkOrSched.mono (fun _ _ _ => trivial) (C07_sift ext m h h2)
 
 /-- the exception raised, if any -/
 def errOf {α} : Except Err α → Option Err
